@@ -814,3 +814,30 @@ def masked_offsets(P, R, rule):
                         'they are missing for isna() but every kernel that walks the offsets sees their vertices - a missing row intersects boxes, has a length and an area',
                         construct=f'{f.qualname}: mask on {norm(offs)[:40]}')
     return n
+
+
+def scalar_dtype_from_data(P, R, rule):
+    """The coordinate width a list scalar reports is the width of the arrow data it HOLDS: `buffer_values` reinterprets the value buffer with it.  A width
+    remembered from a constructor argument (the parent array's dtype) is wrong whenever the element was rebuilt from python values (`as_py()` gives 64-bit
+    data): the bytes of float64 coordinates are then read as float32 pairs."""
+    gl = P.cls('spatialpandas.geometry.baselist.GeometryList')
+    mem = gl.members.get('numpy_dtype') if gl else None
+    if not mem or mem[0] != 'func':
+        R.abstain(rule, ('spatialpandas/geometry/baselist.py', 'GeometryList'), None, 'GeometryList.numpy_dtype not found as a property')
+        return 0
+    f = mem[1]
+    n = 0
+    for r_ in [x for x in walk_own(f.node) if isinstance(x, ast.Return)]:
+        n += 1
+        if r_.value is None or norm(r_.value) == 'None':
+            R.ok(rule, f, r_, 'no data, no dtype', construct=f'numpy_dtype: {norm(r_)}', nontrivial=False)
+            continue
+        srcs = astq.sources(f, r_.value)
+        e_ = astq.expand(f, r_.value)
+        from_data = any(isinstance(x, ast.Attribute) and x.attr in ('data', 'listarray') and norm(x.value) == 'self' for x in ast.walk(e_)) or \
+            any(isinstance(d_[1], ast.AST) and any(isinstance(x, ast.Attribute) and x.attr in ('data', 'listarray') and norm(x.value) == 'self' for x in ast.walk(d_[1]))
+                for nm in srcs for d_ in astq.assignments(f, nm) if d_[0] == 'expr')
+        R.check(from_data, rule, f, r_, 'the dtype a scalar reports is derived from the arrow data it holds',
+                f'`{norm(r_)}` reports a dtype that does not come from the data the scalar holds (a remembered constructor argument): an element rebuilt from python values holds 64-bit data, '
+                'its buffers are then reinterpreted with the parent array\'s narrower width and every coordinate is garbage', construct=f'numpy_dtype: {norm(r_)[:40]}')
+    return n
